@@ -29,6 +29,10 @@ class Expr:
             v = self.facts.const_str(k)
             if v is not None:
                 return ("const", v)
+            if "promoted" in k and k.get("uneval") and depth < self.maxdepth:
+                pb = self.facts.bodies.get("%s::{promoted#%d}" % (k["uneval"], k["promoted"]))
+                if pb is not None and pb is not self.body:
+                    return Expr(self.facts, pb, self.maxdepth).local(0, depth + 1)
             iv = self.facts.const_int(k)
             if iv is not None:
                 if "sint" in k:
